@@ -185,6 +185,35 @@ func c09Run(c *Ctx) {
 			c09Judge(c, cs)
 		}
 	}
+	// 2b. every operator-leading character followed by every code point (thorough), or by every code
+	// point whose low byte is an operator's second character (quick): a two-character operator is
+	// recognised only when the second character really is that character
+	opFirst := []string{"=", "!", "<", ">", "*", "/", "|", "&"}
+	lowBytes := map[rune]bool{0x3d: true, 0x3c: true, 0x3e: true, 0x2a: true, 0x2f: true, 0x7c: true, 0x26: true}
+	for r := rune(0x80); r <= unicode.MaxRune; r++ {
+		if r >= 0xD800 && r <= 0xDFFF {
+			continue
+		}
+		if c.Quick() && !lowBytes[r&0xff] {
+			continue
+		}
+		for _, op := range opFirst {
+			if !c.Mine() {
+				continue
+			}
+			c09Judge(c, &Case{Gen: "operator-then-codepoint", Src: "x " + op + string(r) + " y\nz"})
+		}
+	}
+	// 2c. number literals by magnitude and shape
+	for _, lit := range []string{"9223372036854775807", "9223372036854775808", "9223372036854775809", "18446744073709551615", "18446744073709551616", "99999999999999999999", "\u09ef\u09e8\u09e8\u09e9\u09e9\u09ed\u09e8\u09e6\u09e9\u09ec\u09ee\u09eb\u09ea\u09ed\u09ed\u09eb\u09ee\u09e6\u09ee",
+		"123456789012345678901234567890", "1" + strings.Repeat("0", 308), "1" + strings.Repeat("0", 309), "9223372036854775808.5", "0." + strings.Repeat("0", 330) + "1", strings.Repeat("0", 400) + "7", "00.50", "4294967296", "4503599627370497", "9007199254740993"} {
+		for _, form := range []string{"%s", "x = %s;", "%s %s", "%s.%s", "a%s", "-%s"} {
+			if !c.Mine() {
+				continue
+			}
+			c09Judge(c, &Case{Gen: "number-shapes", Src: strings.ReplaceAll(form, "%s", lit)})
+		}
+	}
 	// 3. keywords +- one code point must be identifiers; exact keywords are keywords
 	var kws []string
 	for k := range ref.Keywords {
@@ -256,7 +285,7 @@ func init() {
 		Assumptions: []string{"Go's unicode.IsLetter/IsMark tables define 'letter' and 'combining mark' for both the implementation and the oracle", "a diagnostic for an unterminated string/comment may name any line from its opening to the end of input"},
 		Run:         c09Run,
 		Judge:       c09Judge,
-		MustCount:   func(c *Ctx) []string { return []string{"gen:frag3", "gen:codepoint-form0", "gen:keyword-variants", "gen:random-long", "lexerr:char", "lexerr:string", "lexerr:comment", "tok:STRING", "tok:NUMBER", "tok:else", "tok:continue"} },
+		MustCount:   func(c *Ctx) []string { return []string{"gen:frag3", "gen:codepoint-form0", "gen:keyword-variants", "gen:operator-then-codepoint", "gen:number-shapes", "gen:random-long", "lexerr:char", "lexerr:string", "lexerr:comment", "tok:STRING", "tok:NUMBER", "tok:else", "tok:continue"} },
 		Exhaustive:  func(string) bool { return false },
 	})
 }
